@@ -15,8 +15,8 @@ import (
 // ReCase: the panic handler itself uses the bus - it publishes a retry event
 // of the same type (with an id that makes no handler panic) before it returns.
 type ReCase struct {
-	Handlers  []H `json:"handlers"` // Once is ignored here
-	Publishes int `json:"publishes"`
+	Handlers  []H  `json:"handlers"` // Once is ignored here
+	Publishes int  `json:"publishes"`
 	Wait      bool `json:"wait,omitempty"` // the panic handler hands the retry to another goroutine and waits for it
 }
 
